@@ -20,6 +20,11 @@ SCRIPTS = [
     "C1 v S1 v C3 v S3 v",
     "v SL SL v v C3 v",
     "C0 v S0 v C1 S1 v",
+    # the server is not listening at first: a reconnectable client (tymeout 0.5) re-opens its socket while bytes wait in its buffer
+    "X C3 v t v C1 t v t O v v v",
+    # one side half-closes its receive direction and goes on transmitting; only that direction is serviced afterwards
+    "C3 v v SR S3 h SL h S1 h",
+    "v S1 v v CR C3 g CL g C1 g",
 ]
 
 
@@ -64,10 +69,18 @@ def payload(code, bs):
 
 def harness(job, ch):
     _, tls, bs, si = job[:4]
+    refresh = (job[3] + (1 if job[1] else 0)) % 2 == 0      # activity refreshes the server-side connection timer / does not
     rxed, txed = job[4] if len(job) > 4 and isinstance(job[4], (tuple, list)) and len(job[4]) == 2 and job[4][0] != "shard" else (True, True)
     script = SCRIPTS[si].split()
+    half = "h" if "SR" in script else "g" if "CR" in script else None
+    late = "X" in script
+    from hio.base import tyming
+    tymist = tyming.Tymist(tyme=0.0, tock=1.0)
+    ckw = dict(rxbs=None, txbs=None)
+    if late:
+        ckw.update(reconnectable=True, tymeout=0.5)
     app_rx, app_tx = bytearray(), bytearray()      # application-supplied (initially empty) buffers, as http.Client passes them
-    w = tcpsys.TcpWorld(ch, tls=tls, bs=bs, wirelog=True, wlflags=(rxed, txed), client_kwa=dict(rxbs=app_rx, txbs=app_tx),
+    w = tcpsys.TcpWorld(ch, tls=tls, bs=bs, wirelog=True, wlflags=(rxed, txed), client_kwa=dict(ckw, rxbs=app_rx, txbs=app_tx), tymth=tymist.tymen(),
                         policy=tcpsys.XPolicy(ch, partial=True, faults=(), wants=tls))
     viol = []
     states = []
@@ -76,8 +89,35 @@ def harness(job, ch):
         ctx, stx = bytearray(), bytearray()
         srx_taken = bytearray()
 
+        def half_round(which):
+            try:
+                if which == "h":
+                    w.server.serviceSendsAllIx()
+                    client.serviceReceives()
+                else:
+                    client.serviceSends()
+                    w.server.serviceReceivesAllIx()
+            except BaseException as ex:
+                w.escaped.append(("half round " + which, tcpsys.site_of(ex), tcpsys.errname(ex)))
+
+        def await_conn(k):
+            rem = None
+            for _ in range(6):
+                rem = w.remoter_of(0)
+                if rem is not None and rem.ca in w.server.ixes and client.connected:
+                    return rem
+                w.round()
+                check("connect round %d" % k)
+            rem = w.remoter_of(0)
+            if rem is None or rem.ca not in w.server.ixes or not client.connected:
+                viol.append(("no-connection:%s" % ("tls" if tls else "plain"), "connection not established after 6 rounds"))
+                return None
+            return rem
+
         def check(stage):
             rem = w.remoter_of(0)
+            if rem is not None and not refresh:
+                rem.refreshable = False      # the application may switch activity-refreshing of the connection's timer off
             srx = bytes(rem.rxbs) if rem is not None else b""
             crx = bytes(app_rx)
             if not bytes(ctx).startswith(srx):
@@ -107,25 +147,38 @@ def harness(job, ch):
                            client.connected, stage[0]))
         for k, step in enumerate(script):
             if step == "v":
-                w.round()
+                if w.server.opened:
+                    w.round()
+                else:
+                    w.service_client(0)      # nobody services a closed server
                 check("round %d" % k)
-            elif step[0] == "C":
+            elif step in ("h", "g"):
+                half_round(step)
+                check("half round %d" % k)
+            elif step == "t":
+                tymist.tick()
+            elif step == "X":
+                w.server.close()
+            elif step == "O":
+                assert w.server.reopen()
+            elif step in ("SR", "CR"):
+                rem = await_conn(k)
+                if rem is None:
+                    break
+                if step == "SR":
+                    w.server.shutdownReceiveIx(rem.ca)
+                else:
+                    client.shutdownReceive()
+            elif step[0] == "C" and step[1] in "013L":
                 p = payload(step[1], bs)
                 if ctx or k % 2:
                     app_tx.extend(p)        # the application fills the transmit buffer it supplied (every transmit after the first)
                 else:
                     client.tx(p)
                 ctx.extend(p)
-            elif step[0] == "S":
-                rem = None
-                for _ in range(6):
-                    rem = w.remoter_of(0)
-                    if rem is not None and rem.ca in w.server.ixes:
-                        break
-                    w.round()
-                    check("connect round %d" % k)
-                if rem is None or rem.ca not in w.server.ixes:
-                    viol.append(("no-connection:%s" % ("tls" if tls else "plain"), "connection not established after 6 rounds"))
+            elif step[0] == "S" and step[1] in "013L":
+                rem = await_conn(k)
+                if rem is None:
                     break
                 p = payload(step[1], bs)
                 rem.tx(p)
@@ -136,18 +189,21 @@ def harness(job, ch):
             w.policy.settle = True
             need = 8 + (len(ctx) + len(stx)) // max(1, bs) * 2 + 4
             for r in range(need):
-                w.round()
+                if half:
+                    half_round(half)
+                else:
+                    w.round()
                 check("settle %d" % r)
                 if viol:
                     break
             rem = w.remoter_of(0)
             if not viol:
                 srx = bytes(rem.rxbs) if rem is not None else b""
-                if srx != bytes(ctx) or client.txbs or app_tx:
+                if half != "h" and (srx != bytes(ctx) or client.txbs or app_tx):
                     viol.append(("liveness:client-to-server:%s" % ("tls" if tls else "plain"),
                                  "after %d healthy rounds server has %d of %d bytes, client txbs %d, supplied tx buffer %d" % (
                                      need, len(srx), len(ctx), len(client.txbs), len(app_tx))))
-                if bytes(app_rx) != bytes(stx) or (rem is not None and rem.txbs):
+                if half != "g" and (bytes(app_rx) != bytes(stx) or (rem is not None and rem.txbs)):
                     viol.append(("liveness:server-to-client:%s" % ("tls" if tls else "plain"),
                                  "after %d healthy rounds client has %d of %d bytes" % (need, len(app_rx), len(stx))))
         for where, site, name in w.escaped:
